@@ -459,13 +459,16 @@ def gen_request(rng: random.Random, ents, proto: bool):
     elif tr < 0.65:
         cls += "+notok"
     elif tr < 0.75:
-        params.append("token=wrong")
+        good = (cfg["tokens"] or [TOKEN])[-1] or TOKEN
+        # wrong in every way a sloppy comparison might let through: unrelated, proper prefix (down to one character),
+        # extension, differing case, differing only in the last character
+        params.append("token=" + rng.choice(["wrong", good[:1], good[:-1], good + "x", good + good, good.upper(), good[:-1] + "_", " " + good[1:]]))
         cls += "+badtok"
     elif tr < 0.8:
         params.append("token=")
         cls += "+emptytok"
     elif tr < 0.87:
-        params += [f"token={TOKEN}", "token=wrong"]
+        params += [f"token={TOKEN}", "token=" + rng.choice(["wrong", TOKEN[:1], TOKEN[:-1], TOKEN + "x"])]
         cls += "+duptok"
     elif tr < 0.94:
         params += ["token=wrong", f"token={TOKEN}"]
@@ -524,6 +527,10 @@ def fixed_cases(mode: str):
     for line, content, fault, cls in out:
         yield {"tree": FIXED_TREE, "cfg": OPEN, "line": line, "content": content, "fault": fault, "cls": cls + "+fixed"}
     yield {"tree": FIXED_TREE, "cfg": {"max": 100, "types": None, "tokens": [TOKEN], "delete": False}, "line": "titan://h/a;size=7;token=", "content": c, "fault": None, "cls": "existing+emptytok+fixed"}
+    for bad in (TOKEN[:1], TOKEN[:-1], TOKEN + "x", TOKEN + ";token=" + TOKEN[:1], "x" + TOKEN, TOKEN.upper()):
+        for sz, body in ((7, c), (0, "")):
+            yield {"tree": FIXED_TREE, "cfg": {"max": 100, "types": None, "tokens": [TOKEN, "other-token"], "delete": True},
+                   "line": f"titan://h/a;size={sz};token={bad}", "content": body, "fault": None, "cls": "existing+badtok+fixed"}
     yield {"tree": FIXED_TREE, "cfg": {"max": 100, "types": None, "tokens": [TOKEN], "delete": False}, "line": "titan://h/a;size=0;token=" + TOKEN, "content": "", "fault": None, "cls": "existing+tok+fixed"}
     for name in ("p", "q", "r", "s", "t", "p/x", "d/secret", "din/x", "fin"):
         yield {"tree": PSEUDO_TREE, "cfg": OPEN, "line": f"titan://h/g/{name};size=7", "content": c, "fault": None, "cls": "pseudoloop+fixed"}
